@@ -450,8 +450,10 @@ where
         // add the new element in the qp vector as the last in the heap
         self.store.qp.push(Position(i));
         self.store.heap.push(Index(i));
-        self.bubble_up(Position(i), Index(i));
+        // count the element before sifting: `bubble_up` calls user code (`Ord::cmp`)
+        // that may panic, and the tables must agree with `size` if it does
         self.store.size += 1;
+        self.bubble_up(Position(i), Index(i));
         None
     }
 
@@ -756,6 +758,10 @@ where
                 let parent_index = *self.store.heap.get_unchecked(parent_position.0);
                 *self.store.heap.get_unchecked_mut(position.0) = parent_index;
                 *self.store.qp.get_unchecked_mut(parent_index.0) = position;
+                // keep heap and qp inverse permutations at every step, so that a
+                // panicking `Ord::cmp` cannot leave them inconsistent
+                *self.store.heap.get_unchecked_mut(parent_position.0) = map_position;
+                *self.store.qp.get_unchecked_mut(map_position.0) = parent_position;
             }
             position = parent_position;
         }
